@@ -48,7 +48,7 @@ func c09Gen(rt *rapid.T) c09Case {
 	c.op = drawOp(rt, []string{"ArgMax", "ReduceMax", "ReduceMin", "Softmax", "LogSoftmax"})
 	gate := runOpConstraints(c.op)
 	dt := rapid.SampledFrom(gate[0]).Draw(rt, "dtype")
-	shape := genShape(1, 4, 5, 300).Draw(rt, "shape")
+	shape := genShape(1, 4, 5, 1500).Draw(rt, "shape")
 	r := len(shape)
 	n := prod(shape)
 	var attrs []*onnx.AttributeProto
